@@ -2372,7 +2372,7 @@ def run(ctx):
                      "elements [a][02][x][y] with two content octets; len 6 over 8-symbol alphabet", ncls),
                   "der-mutation-closure(%d seeds%s)" % (nseeds, "" if q else "; all 256 values at every offset for seeds <= 160 bytes and in "
                                                         "the first 24 bytes otherwise; %d two-octet windows x all 65536 values" % npairs),
-                  "der-object-reuse(12 classes x every history of 2..%s decode() calls; %d histories)"
+                  "der-object-reuse(13 classes x every history of 2..%s decode() calls; %d histories)"
                   % ("3" if q else "5", a.n.get("der_reuse_histories", 0)),
                   "der-length-forms(content lengths 0..%d and %s x canonical + every non-minimal form of %s length octets, top-level and as SEQUENCE member)"
                   % (lf_top, "/".join(str(v) for v in lf_extra), "1..4" if q else "1..6, 8, 16, 126 and 0xFF+127"),
